@@ -874,6 +874,14 @@ class SimulationProblem(DataStoreAccessor):
             logger.error(message)
             raise Exception(message)
 
+        # A state with nans does not satisfy the model equations, whatever the rootfinder reports
+        if np.isnan(np.array(next_state, dtype=float)).any():
+            message = (
+                "Simulation has failed to converge at time {}. The new state contains nan(s)"
+            ).format(self.get_current_time())
+            logger.error(message)
+            raise Exception(message)
+
         if logger.getEffectiveLevel() == logging.DEBUG:
             # compute max residual
             largest_res = ca.norm_inf(
